@@ -9,6 +9,10 @@ def run(ctx):
     selfcheck(ctx)
     n = 3 if ctx.quick else 4
     tokenizer(ctx, n, ['tok.nopanic', 'tok.progress', 'tok.garbage'], f'full alphabet n={n}')
+    Q, BS, ANY = [0x22], [0x5c], None
+    TERM = [0x20, 0x0a, ord(','), ord(']'), ord('}')]
+    multi = [(5, [Q, BS, ANY, Q, TERM]), (9, [Q, BS, [ord('u')], ANY, ANY, ANY, ANY, Q, TERM]), (6, [Q, ANY, ANY, ANY, Q, TERM])]
+    tokenizer(ctx, None, ['tok.nopanic', 'tok.progress'], 'string tokens by class: "\\c", "\\uHHHH" with every byte of c / H free (all 256 values), "ccc"', variants=('nocb',), partition=0, multi=multi)
     read_input(ctx, ['read.nopanic'])
     kernels(ctx)
     truncation(ctx)
